@@ -9,11 +9,18 @@ INNERS = [('literal', '"a"', ''), ('rule', 'X', ''), ('regex', '/[ab]/', ''), ('
           ('class', 'K', ''), ('parameter-as-parser', 'x', 'TEMPLATE'), ('sequence-of-rules', '[X, X]', ''),
           ('choice', '("zz" | X)', ''), ('inline-read', '[`q`]', 'let q = /[ab]/ in '),
           ('count-read', '"a"{n}', 'let n = `1` in '),
+          ('padded-inline-read', '[` q\t `, "a"{` n `}]', 'let n = `1` in let q = /[ab]/ in '),
           ('empty-literal', '""', ''), ('case-insensitive-literal', '"A"i', ''), ('lookahead', 'Expect("a") >> "a"', ''),
           ('repetition', '"a"+', ''),
           # a let that re-binds a name of the enclosing scope (it saves and restores the outer value)
           ('shadowing-let', '(let q = /[ab]/ in `q`)', 'let q = /[ab]/ in '),
-          ('shadowing-let-of-parameter', '[(let x = /[ab]/ in `x`), x]', 'TEMPLATE'), ('separated', '("a" // "b")', ''), ('fail', 'Fail()', '')]
+          ('shadowing-let-of-parameter', '[(let x = /[ab]/ in `x`), x]', 'TEMPLATE'), ('separated', '("a" // "b")', ''), ('fail', 'Fail()', ''),
+          # literals that spell Python keywords of the generated code (the helper's text contains them, it calls no rule)
+          ('keyword-literal', '"yield"', ''), ('keyword-choice', '("await" | "yield" | "return")', ''),
+          # rule references in parts that are never compiled or never run: after an alternative that always succeeds,
+          # under a zero count
+          ('dead-alternative', '(Opt("a") | X)', ''), ('dead-alternative-sugar', '("a"? | X)', ''), ('zero-count-rule', 'X{0}', ''),
+          ('dead-alternative-in-sequence', '[("" | X), Opt("b")]', '')]
 # bytes mode: every literal kind of a binary grammar
 BPRELUDE = 'X = b"a" | b"b"\nPair(x) = [x, x]\nclass K { v: b/[ab]/ }\n'
 BINNERS = [('byte', '0x61', ''), ('bytes-literal', 'b"a"', ''), ('bytes-regex', 'b/[ab]/', ''), ('bytes-rule', 'X', ''),
@@ -27,7 +34,7 @@ WRAPPERS = {
     'right': lambda e: f'("" >> {e})',
 }
 MIXES = [['seq', 'opt'], ['seq', 'choice-failing-branch', 'group'], ['opt', 'fail-or', 'seq', 'right']]
-TEXTS = ['a', 'aa', 'b', 'ab', '', 'ba', 'c', 'a ', ' a', ' a a ']
+TEXTS = ['a', 'aa', 'b', 'ab', '', 'ba', 'c', 'a ', ' a', ' a a ', 'yield', 'yield ', 'return', 'yiel']
 
 
 def wrap(inner, kinds, depth, bytes_mode=False):
